@@ -4,8 +4,6 @@ use std::fmt::Write;
 include!("gen_corpus.rs");
 
 fn main() {
-    println!("cargo:rerun-if-changed=build.rs");
-    println!("cargo:rerun-if-changed=gen_corpus.rs");
     println!("cargo:rerun-if-changed=../c02/parts/build.rs");
     println!("cargo:rerun-if-changed=../c02/parts/gen_corpus.rs");
     println!("cargo:rerun-if-env-changed=VERIF_TIER");
